@@ -94,8 +94,8 @@ func checkEncode(fs *gen.FileSpec, labels map[string]int) (string, bool) {
 	if err != nil {
 		return "HARNESS: " + err.Error(), false
 	}
-	if fs.SubSecond || fs.ZonedUTC {
-		if prof.TweakTimes(f, fs.SubSecond, fs.ZonedUTC) > 0 {
+	if fs.SubSecond || fs.ZonedUTC || fs.SameTime {
+		if prof.TweakTimes(f, fs.SubSecond, fs.ZonedUTC, fs.SameTime) > 0 {
 			if fs.SubSecond {
 				labels["times with a fractional part"]++
 			}
@@ -153,7 +153,7 @@ func checkEncode(fs *gen.FileSpec, labels map[string]int) (string, bool) {
 			return "Encode wrote into memory of the caller that is not part of the File: " + msg, false
 		}
 	} else if fresh, err := gen.BuildFile(fs); err == nil {
-		prof.TweakTimes(fresh, fs.SubSecond, fs.ZonedUTC)
+		prof.TweakTimes(fresh, fs.SubSecond, fs.ZonedUTC, fs.SameTime)
 		if a, b := prof.FileValues(f), prof.FileValues(fresh); a != b {
 			return fmt.Sprintf("Encode changed the values of the File it was given (its arrays are views of one buffer):\nbefore:\n%s\nafter:\n%s", trunc(b), trunc(a)), false
 		}
@@ -167,7 +167,7 @@ func checkEncode(fs *gen.FileSpec, labels map[string]int) (string, bool) {
 		if fs.Aliased {
 			prof.AliasArrays(again)
 		}
-		prof.TweakTimes(again, fs.SubSecond, fs.ZonedUTC)
+		prof.TweakTimes(again, fs.SubSecond, fs.ZonedUTC, fs.SameTime)
 		return fit.Encode(w, again, order(fs.BigEndian))
 	}); msg != "" {
 		return "Encode: " + msg, false
@@ -210,6 +210,9 @@ func checkEncode(fs *gen.FileSpec, labels map[string]int) (string, bool) {
 
 	// Messages of the File in the order the slots are declared.
 	f2, _ := gen.BuildFile(fs) // untouched copy of the values
+	if fs.SameTime {
+		prof.SameTimes(f2) // (this one changes a value: the expectation follows)
+	}
 	var msgs []reflect.Value
 	for _, s := range append(prof.FileSlots(), prof.Slots(f2.Type())...) {
 		for _, m := range prof.SlotMsgs(f2, s) {
@@ -494,6 +497,47 @@ func TestC05(t *testing.T) {
 			}
 			rec.Eval("aliased", na)
 			rec.NonTrivialEnum(na)
+
+			// same time: every message with a date_time and a
+			// local_date_time field (activity, monitoring, monitoring_info,
+			// schedule, timestamp_correlation ...) with both fields holding
+			// the identical zoned time.Time value, in every file type that
+			// holds the message, both byte orders
+			nst := int64(0)
+			for _, ft := range prof.FileTypes {
+				for _, s := range append(prof.FileSlots(), prof.Slots(ft)...) {
+					mi := prof.Table().Msgs[s.Msg]
+					if mi == nil || s.Name == "FileId" {
+						continue
+					}
+					var utcName, localName string
+					for _, fi := range mi.BySIdx {
+						if fi == nil {
+							continue
+						}
+						if fi.Kind == fitmodel.KindTimeUTC && utcName == "" {
+							utcName = fi.Name
+						}
+						if fi.Kind == fitmodel.KindTimeLocal && localName == "" {
+							localName = fi.Name
+						}
+					}
+					if utcName == "" || localName == "" {
+						continue
+					}
+					for _, be := range []bool{false, true} {
+						fs := &gen.FileSpec{Type: int(ft), Proto: 0x20, BigEndian: be, SameTime: true, FileId: gen.MsgSpec{Fields: map[string]fitmodel.Val{}},
+							Slots: []gen.SlotSpec{{Name: s.Name, InFile: s.InFile, Msgs: []gen.MsgSpec{{Global: s.Msg, Fields: map[string]fitmodel.Val{
+								utcName: fitmodel.T(1086179400+631065600, 0), localName: fitmodel.T(1086179400+631065600, 0)}}}}}}
+						nst++
+						if msg, ok := checkEncode(fs, map[string]int{}); !ok {
+							rec.Fail("same-time", "", msg, fs)
+						}
+					}
+				}
+			}
+			rec.Eval("same-time", nst)
+			rec.NonTrivialEnum(nst)
 
 			// a data section beyond 64 KiB and beyond 128 KiB (the encoder
 			// buffers all records and checksums them in one piece)
